@@ -200,9 +200,19 @@ theorem np_flattenAnonPointer (fc : Facts) (x : Ext) (o : Opts) (ops : List (Str
   generalize classifyFuel = cf
   np_using (first | exact np_nameSchema _ _ _ _ _ _ _ _ | np_leaf)
 
-theorem np_namePointers (fc : Facts) (x : Ext) (o : Opts) (s : St) : NP (namePointers fc x o s) := by
-  unfold namePointers
+theorem np_namePointersPass (fc : Facts) (x : Ext) (o : Opts) (s : St) : NP (namePointersPass fc x o s) := by
+  unfold namePointersPass
   np_using (first | exact np_opRefsByRef _ _ | exact np_flattenAnonPointer _ _ _ _ _ _ _ _ | np_leaf)
+
+theorem np_namePointersLoop (fc : Facts) (x : Ext) (o : Opts) : ∀ (fuel : Nat) (s : St), NP (namePointersLoop fc x o fuel s)
+  | 0, _ => rfl
+  | fuel + 1, s => by
+    have ih := np_namePointersLoop fc x o fuel
+    unfold namePointersLoop
+    np_using (first | exact ih _ | exact np_namePointersPass _ _ _ _ | np_leaf)
+
+theorem np_namePointers (fc : Facts) (x : Ext) (o : Opts) (s : St) : NP (namePointers fc x o s) :=
+  np_namePointersLoop fc x o _ s
 
 /-- `pr[0]` on the sorted parents was the one index expression of the pipeline that could panic; since
     the repair that picks the first parent *outside* of the definition (fix in /repo), the site is only
